@@ -152,6 +152,11 @@ func (x *xtr) expr(e ast.Expr) xval {
 			if _, isVar := x.env[id.Name]; !isVar && x.sp.FloatSym && id.Name == "math" && t.Sel.Name == "Pi" {
 				return xval{ty: tFCon, fc: constant.MakeFromLiteral(mathPiText, token.FLOAT, 0), s: "math.Pi"}
 			}
+			if _, isVar := x.env[id.Name]; !isVar && x.sp.FloatSym && id.Name == "math" && t.Sel.Name == "MaxFloat32" {
+				// 0x1p127 * (1 + (1 - 0x1p-23)) = 2^128 - 2^104
+				v := constant.BinaryOp(constant.Shift(constant.MakeInt64(1), token.SHL, 128), token.SUB, constant.Shift(constant.MakeInt64(1), token.SHL, 104))
+				return xval{ty: tFCon, fc: constant.ToFloat(v), s: "math.MaxFloat32"}
+			}
 			if _, isVar := x.env[id.Name]; !isVar {
 				if v, ok := x.consts[id.Name+"."+t.Sel.Name]; ok {
 					return v
